@@ -179,15 +179,19 @@ Proof. eexists. split; [vm_compute; reflexivity|]. vm_compute. split; reflexivit
 
 Lemma full_statement_refuted : ~ C12_full_statement.
 Proof.
-  intro H. destruct bool_trait_witness as [t [Hg [Hparse Hdec]]].
-  assert (Ht : exists c r, In c (t_cols t) /\ col_parsable c = true /\ In r (col_rows c)
-                           /\ cl_val (r_cell r) = {| dty := "bool"; dval := PBool true |} /\ g_z (r_owner r) = 1).
-  { vm_compute in Hg. inversion Hg; subst t. eexists. eexists. simpl.
-    split; [left; reflexivity|]. split; [reflexivity|]. split; [right; left; reflexivity|]. split; reflexivity. }
-  destruct Ht as [c [r [Hc [Hp [Hr [Hcell Hz]]]]]].
-  specialize (H bw_defn bw_opts t bw_wf Hg c r bw_true Hc Hp Hr).
-  rewrite Hcell, Hz in H. rewrite Hdec in H.
-  assert (E : None = Some 1); [|discriminate]. apply H.
-  - simpl. repeat split.
-  - intros y w Hy. vm_compute in Hy. contradiction.
+  intro H.
+  remember (gen bw_defn bw_opts) as g eqn:Hg. vm_compute in Hg.
+  match type of Hg with _ = Built ?T => set (t := T) in * end.
+  assert (Hgen : gen bw_defn bw_opts = Built t) by (vm_compute; reflexivity).
+  set (c := hd {| col_name := ""; col_type := ""; col_info := {| ti_bkind := BNonBasic; ti_json_own := false; ti_yaml_own := false; ti_text_own := false |}; col_parsable := false; col_rows := [] |} (t_cols t)).
+  set (r := nth 1 (col_rows c) {| r_owner := to_gvalue {| c_name := ""; c_val := 0; c_dep := false; c_cells := [] |}; r_cell := bw_cell "" false; r_valstr := "" |}).
+  specialize (H bw_defn bw_opts t bw_wf Hgen c r bw_true).
+  assert (E : decode_json t bw_true = Some (g_z (r_owner r))).
+  { apply H.
+    - vm_compute. left. reflexivity.
+    - vm_compute. reflexivity.
+    - vm_compute. right. left. reflexivity.
+    - vm_compute. repeat split.
+    - intros y w Hy. vm_compute in Hy. contradiction. }
+  vm_compute in E. discriminate.
 Qed.
